@@ -86,6 +86,8 @@ class Cursor:
         self.F = F
         self.viol = {}       # key -> (msg, where)
         self.sites = {}      # key -> where (every consume site analysed)
+        self.pos_sites = {}  # key -> (where, knowledge about the character under the cursor when a position is taken)
+        self.pos_ordinals = {}
         self.depth = 0
         self.stack = []
         self.ctx = []        # arm labels
@@ -520,6 +522,17 @@ class Cursor:
                     continue
                 if name == "consume_char":
                     res.append(("normal", self.consume(e, s), None))
+                elif name in ("get_pos", "get_range"):
+                    # where a position is taken: what is known about the character under the cursor
+                    label = self.ctx[-1] if self.ctx else "-"
+                    ordn = self.pos_ordinals.setdefault((self.fn, label), {})
+                    idx = ordn.setdefault(id(e), len(ordn) + 1)
+                    key = f"{short(self.fn)}|{label}|{name}#{idx}"
+                    prev = self.pos_sites.get(key)
+                    k0 = s.know.get(0)
+                    # several contexts may reach one site: 'L' (on a newline) in any of them is what matters
+                    self.pos_sites[key] = (loc(e), "L" if (k0 == "L" or (prev and prev[1] == "L")) else k0)
+                    res.append(("normal", s, None))
                 elif self.opt_offset(e, s) is not None:
                     res.append(("normal", s, ("opt_at", self.opt_offset(e, s))))
                 elif self.is_mut_self_method(e):
